@@ -9,7 +9,7 @@ import errno
 from gunicorn.config import Config
 from gunicorn.http import RequestParser
 from gunicorn.http.errors import NoMoreData
-from simkit.core import HarnessError
+from simkit.core import HarnessError, Wedged
 
 _CFG_CACHE = {}
 
@@ -54,6 +54,9 @@ class CutSock:
         self.recvs += 1
         if self.pos >= len(self.data):
             if self.end == "eof":
+                self.eof_recvs = getattr(self, "eof_recvs", 0) + 1
+                if self.eof_recvs > 100:
+                    raise Wedged("recv() called %d times on a connection that is at end of file" % self.eof_recvs)
                 return b""
             if self.end == "reset":
                 raise ConnectionResetError(errno.ECONNRESET, "reset by simulated peer")
@@ -111,6 +114,8 @@ def observe(cfg, data, cuts=(), end="eof", peer=("10.0.0.9", 4321), max_requests
             req = next(parser)
         except StopIteration:
             return obs, ("end",), sock
+        except Wedged:
+            return obs, ("wedged", phase), sock
         except NoMoreData:
             return obs, ("incomplete", phase), sock
         except ConnectionResetError:
